@@ -123,7 +123,7 @@ def save_fault_point(k: int, dest_exists: bool) -> bool:
 
 NATURAL = ("unencodable", "bad_keyfile", "unknown_format", "missing_keydir", "ok_json", "ok_xml", "ok_yaml",
            "ok_bson", "ok_pickle", "xml_bad_char", "xml_bad_key", "bson_big_int", "yaml_ok_weird",
-           "formatter_returns_text", "formatter_returns_none")
+           "formatter_returns_text", "formatter_returns_none", "missing_keydir_one_secret")
 
 
 @obligation(prop="C19", sites=("fault", "nofault"), encodes=ENC, stubs=("FakeFS",),
@@ -134,7 +134,7 @@ NATURAL = ("unencodable", "bad_keyfile", "unknown_format", "missing_keydir", "ok
                  "in the five real formats write exactly dumps() and load back equal")
 def save_natural_faults(case: int, dest_exists: bool) -> bool:
     """
-    pre: 0 <= case < 15
+    pre: 0 <= case < 16
     post: _
     """
     name = NATURAL[0]
@@ -152,6 +152,12 @@ def save_natural_faults(case: int, dest_exists: bool) -> bool:
             fs.files[KEYPATH] = b"short"
         elif name == "missing_keydir":
             keyfile = "/nodir/app.key"
+        elif name == "missing_keydir_one_secret":
+            # the same fault with exactly ONE secret in the configuration (a retry meets the key file once only)
+            keyfile = "/nodir/app.key"
+            schema = Schema()
+            schema.title = StringField(default="t")
+            schema.pw = SecureField(method="xor", default="only-secret")
         cfg = schema(key_filename=keyfile)
         if name == "unencodable":
             cfg.extra = {1, 2}  # a set: no format-independent plain-data form; json cannot encode it
@@ -209,6 +215,17 @@ def save_natural_faults(case: int, dest_exists: bool) -> bool:
             hold("fault", raised is not None, lambda: "save succeeded in case %s" % name)
             hold("fault", not wrote, "destination opened for writing although serialisation failed")
             hold("fault", fs.files.get(DEST) == (OLD if dest_exists else None), "destination bytes changed")
+            # the fault is still there: a RETRY on the same configuration object fails the same way (no state left
+            # over from the first attempt lets it through) and still leaves the destination alone
+            opens_before = len(fs.opens)
+            again = None
+            try:
+                cfg.save(DEST, format=fmt)
+            except Exception as exc:  # noqa: BLE001
+                again = exc
+            wrote = [m for p, m in fs.opens[opens_before:] if p == DEST and ("w" in m or "a" in m or "+" in m)]
+            hold("fault", again is not None and not wrote and fs.files.get(DEST) == (OLD if dest_exists else None),
+                 lambda: "a retried save in case %s %s" % (name, "succeeded" if again is None else "touched the destination"))
     return True
 
 
@@ -281,4 +298,42 @@ def save_twice(between: int, change_value: bool, fmt_i: int) -> bool:
         fresh.load(DEST, format=fmt)
         hold("again", plain(fresh) == plain(cfg),
              lambda: "after the second save the file does not hold the current configuration: %r" % (content,))
+    return True
+
+
+# --------------------------------------------------------------------------- saves that ask for virtual output
+@obligation(prop="C19", sites=("back",), encodes=ENC + ["cincoconfig.core.Config.load_tree"], stubs=("FakeFS", "MemFormat"),
+            budget={"quick": 60, "thorough": 120},
+            what="save(..., virtual=True) on a schema with read-only virtual fields (plain and the is_<mode>_mode "
+                 "helpers of an application-mode field), a virtual field with a setter and an instance method, at the "
+                 "root or nested: the written file loads back into an equal configuration")
+def save_with_virtual_output_loads_back(nested: bool, real: bool, v: int) -> bool:
+    """
+    pre: 0 <= v <= 9
+    post: _
+    """
+    from cincoconfig import ApplicationModeField, InstanceMethodField, VirtualField
+    fs = FakeFS(files={KEYPATH: KEY}, dirs=["/k", "/cfg"])
+    mem = MemStore()
+    with fs.patched(), mem.registered():
+        schema = Schema()
+        owner = schema.sec if nested else schema
+        owner.a = IntField(default=1)
+        owner.mode = ApplicationModeField(default="production")
+        owner.double = VirtualField(lambda cfg: (cfg.a or 0) * 2)
+        owner.alias = VirtualField(lambda cfg: cfg.a, lambda cfg, value: cfg.__setattr__("a", value))
+        owner.hello = InstanceMethodField(lambda cfg: "hi")
+        cfg = schema(key_filename=KEYPATH)
+        (cfg.sec if nested else cfg).a = v
+        fmt = "json" if real else "mem"
+        cfg.save(DEST, format=fmt, virtual=True)
+        fresh = schema(key_filename=KEYPATH)
+        try:
+            fresh.load(DEST, format=fmt)
+            err = None
+        except Exception as exc:  # noqa: BLE001
+            err = exc
+        hold("back", err is None, lambda: "a file written by save(virtual=True) does not load back: %r" % (err,))
+        hold("back", plain(fresh) == plain(cfg) and (fresh.sec if nested else fresh).double == 2 * v,
+             "loaded configuration differs")
     return True
